@@ -1109,3 +1109,45 @@ def has_loop(fb, body):
             if pl and 'ty' in pl and any(src in body.tystr(pl['ty']) for src in ENDLESS_SOURCES):
                 return True
     return False
+
+
+DEBUG_ONLY_MACROS = ('debug_assert', 'debug_assert_eq', 'debug_assert_ne')
+_EFFECT_LAST = ('store', 'swap', 'fetch_add', 'fetch_sub', 'fetch_or', 'fetch_and', 'fetch_xor', 'fetch_max', 'fetch_min', 'fetch_nand',
+                'fetch_update', 'compare_exchange', 'compare_exchange_weak', 'send', 'try_send', 'write', 'write_all', 'write_volatile',
+                'copy_nonoverlapping', 'copy', 'copy_from', 'copy_to', 'push', 'insert', 'remove', 'take', 'replace', 'set', 'set_len',
+                'get_or_insert', 'get_or_insert_with', 'lock', 'recv', 'try_recv', 'recv_timeout', 'join', 'spawn', 'unwrap_or_else')
+
+
+def debug_only_effects(fb, bodies):
+    """[(body, block, where, callee)]: calls with an effect (an atomic write, a message, a copy, a mutation of a collection)
+    evaluated as part of the *condition* of a `debug_assert!`: they run in debug builds and vanish from the release build
+    that ships. Found like the log arguments: call terminators with a plain (non-expansion) span inside the region the
+    macro's `cfg!(debug_assertions)` test guards."""
+    out = []
+    for b in bodies:
+        for i, blk in enumerate(b.blocks):
+            t = blk['term']
+            exp = [e['name'] for e in (blk['tspan'].get('exp') or [])]
+            if blk['cleanup'] or t['k'] != 'switch' or not any(n in DEBUG_ONLY_MACROS for n in exp) or not any('cfg' in n for n in exp):
+                continue
+            # the edge taken when debug assertions are off leads past the check: everything else reachable before that
+            # point is the check (its failing branch diverges, so there is no post-dominator to use)
+            skip = [x for v_, x in b.succ_edges(i) if v_ == 0]
+            if len(skip) != 1:
+                continue
+            starts = [x for v_, x in b.succ_edges(i) if v_ != 0]
+            region = {x for x in range(len(b.blocks)) if not b.blocks[x]['cleanup'] and x != skip[0] and
+                      any(b.dominates(s_, x) for s_ in starts)}
+            for x in sorted(region):
+                b2 = b.blocks[x]
+                t2 = b2['term']
+                if b2['tspan'].get('exp') or t2['k'] != 'call' or not t2['func'].get('fn'):
+                    continue
+                nm = mir.callee_name(t2['func']['fn'])
+                last = nm.split('::')[-1]
+                mut_arg = any(isinstance(a, dict) and a.get('k') in ('move', 'copy') and 'ty' in a.get('p', {}) and
+                              b.ty(a['p']['ty']).get('k') in ('ref', 'ptr') and b.ty(a['p']['ty']).get('mut') is True for a in t2.get('args') or [])
+                nb = fb.body(nm)
+                if last in _EFFECT_LAST or mut_arg or (nb is not None and not _inert_fn(fb, nb)):
+                    out.append((b, x, b.where(x), nm))
+    return out
